@@ -274,29 +274,80 @@ def match_batch(spec_path, out_path):
     MPI.COMM_WORLD.Barrier()
 
 
-def gen_strings(basis, compl, outdir):
-    """the part of duplicate_checker.main that produces trees_n / all_equations_n / aifeyn_n (generate_equations, get_match_indexes,
-    initial_sympify, the writing of all_equations), WITHOUT the deduplication rounds - the same calls with the same arguments, so
-    that C02's line-by-line law can be checked at complexities where deduplication takes hours"""
-    import pprint
-    import esr.generation.generator as generator
+class _StopBeforeDedup(Exception):
+    pass
+
+
+def gen_strings(runname, compl, basis=None):
+    """duplicate_checker.main itself, stopped where it would enter the deduplication rounds (simplifier.do_sympy, a module attribute
+    looked up at call time, is replaced by a function that raises): trees_n, aifeyn_n and all_equations_n are then written by the
+    real code, in the library directory, at complexities where the rounds take hours.  The final quote-stripping sed of main has
+    not run: the files still carry pprint's quotes (harness/libio strips them)."""
+    if basis is not None:
+        os.environ["ESR_VERIF"] = "1"
+        os.environ["ESR_VERIF_BASIS"] = json.dumps(basis)
+    import esr.generation.duplicate_checker as dc
     import esr.generation.simplifier as simplifier
+
+    def stop(*a, **k):
+        raise _StopBeforeDedup()
+    simplifier.do_sympy = stop
+    try:
+        dc.main(runname, compl)
+    except _StopBeforeDedup:
+        pass
+
+
+# ----------------------------------------------------------------------------- C14: generation-stage concatenation (make_changes) on P real ranks
+def make_changes_batch(ns, out_path):
+    """for every N: every rank rewrites some functions of ITS slice (utils.split_idx, as sympy_simplify slices), the real
+    simplifier.make_changes merges the ranks' changes; every rank must end with the same, correctly placed lists"""
+    from mpi4py import MPI
+    import esr.generation.simplifier as simp
     import esr.generation.utils as utils
-    os.makedirs(outdir, exist_ok=True)
-    all_fun, extra_orig = generator.generate_equations(compl, basis, outdir)
-    max_param = simplifier.get_max_param(all_fun)
-    nextra = len(extra_orig)
-    extra_orig = utils.get_match_indexes(all_fun, extra_orig)
-    if nextra > 0:
-        all_fun[:-nextra], all_sym = simplifier.initial_sympify(all_fun[:-nextra], max_param)
-        all_fun[-nextra:], _ = simplifier.initial_sympify(all_fun[-nextra:], max_param, save_sympy=False, verbose=False)
-    else:
-        all_fun, all_sym = simplifier.initial_sympify(all_fun, max_param)
-    with open(outdir + '/all_equations_%i.txt' % compl, "w") as f:
-        w = 80
-        pp = pprint.PrettyPrinter(width=w, stream=f)
-        for s_ in all_fun:
-            if len(s_ + '\n') > w / 2:
-                w = 2 * len(s_)
-                pp = pprint.PrettyPrinter(width=w, stream=f)
-            pp.pprint(s_)
+    comm = MPI.COMM_WORLD
+    rank, size = comm.Get_rank(), comm.Get_size()
+    bad = []
+    for N in ns:
+        all_fun = ["f%d" % i for i in range(N)]
+        all_sym = ["s%d" % i for i in range(N)]
+        all_inv = [None] * N
+        changed = lambda i: (i * 7 + N) % 3 != 1
+        idx = utils.split_idx(N, rank, size)
+        if len(idx) == 0:
+            lo, hi = N, N
+        else:
+            lo, hi = int(idx[0]), int(idx[-1]) + 1
+        str_fun, sym_fun, inv_fun = all_fun[lo:hi], all_sym[lo:hi], all_inv[lo:hi]
+        for k, i in enumerate(range(lo, hi)):
+            if changed(i):
+                str_fun[k], sym_fun[k], inv_fun[k] = "f%d'" % i, "s%d'" % i, ["g%d" % i]
+        try:
+            f, sy, iv = simp.make_changes(all_fun, all_sym, all_inv, str_fun, sym_fun, inv_fun)
+            exp_f = ["f%d'" % i if changed(i) else "f%d" % i for i in range(N)]
+            exp_i = [["g%d" % i] if changed(i) else None for i in range(N)]
+            err = None if (list(f) == exp_f and list(iv) == exp_i) else "rank %d: functions %s maps %s" % (rank, list(f)[:8], list(iv)[:8])
+        except Exception as e:
+            err = "rank %d: %s: %s" % (rank, type(e).__name__, e)
+            # keep the ranks in step: the others are inside make_changes' collectives; nothing sensible can follow
+            raise
+        errs = comm.gather(err, root=0)
+        if rank == 0:
+            es = [e for e in errs if e]
+            if es:
+                bad.append({"N": N, "P": size, "errors": es[:3]})
+    if rank == 0:
+        with open(out_path, "w") as fh:
+            json.dump(bad, fh)
+    comm.Barrier()
+
+
+def startup_stage(kind, data_file, run_name, data_dir, fn_set, compl):
+    """what every fitting stage does first: construct the likelihood, then get_functions (directories, barrier)"""
+    import io, contextlib
+    from mpi4py import MPI
+    like = make_like(kind, data_file, run_name, data_dir, fn_set)
+    import esr.fitting.test_all as ta
+    with contextlib.redirect_stdout(io.StringIO()):
+        ta.get_functions(compl, like)
+    MPI.COMM_WORLD.Barrier()
